@@ -455,6 +455,34 @@ def ob_pickroll(opc, maxdepth, maxn):
 # ---- number codec
 
 
+def ob_numcodec_history(n0):
+    """history: earlier codec calls on arbitrary other operands (an element of n0 bytes decoded, a number encoded) in the same
+    process; encode_num / decode_num must still be the specification's functions afterwards"""
+    opm = loader.load("op")
+
+    def p4():
+        v0 = SBytes.sym("v0", n0) if n0 else b""
+        j0 = SI.var("j0", -(1 << 31) + 1, (1 << 31) - 1)
+        i = SI.var("i", -(1 << 31) + 1, (1 << 31) - 1)
+        w = lambda env: {"hist": {"v0": bytes_env(env, "v0", n0).hex(), "j0": env["j0"]}, "i": env["i"]}  # noqa
+        try:
+            opm.decode_num(v0)
+            opm.encode_num(j0)
+        except core.Unsupported:
+            raise
+        except Exception:
+            pass
+        b = opm.encode_num(i)
+        e = spec_ser(i)
+        check((len(b) == len(e)) and (b == e), "encode_num(i) is not the minimal serialisation after earlier codec calls", witness=w)
+        check(opm.decode_num(b) == i, "decode_num(encode_num(i)) != i after earlier codec calls", witness=w)
+        check(opm.decode_num(v0) == spec_num(v0), "decode_num(v) != CScriptNum(v) after earlier codec calls", witness=w)
+        return "ok"
+    r = sym_run(p4, expect_classes=["ok"], max_violations=6)
+    r["sample"] = {"history": f"decode_num(element of {n0} symbolic bytes); encode_num(symbolic j0)", "then": "encode_num(i), decode_num of both"}
+    return r
+
+
 def ob_numcodec():
     opm = loader.load("op")
 
@@ -508,6 +536,17 @@ def ob_numcodec():
 
 def replay_numcodec(w):
     from buidl import op
+    if "hist" in w:
+        v0, j0, i = bytes.fromhex(w["hist"]["v0"]), w["hist"]["j0"], w["i"]
+        try:
+            op.decode_num(v0)
+            op.encode_num(j0)
+        except Exception:
+            pass
+        b = op.encode_num(i)
+        bad = b != bytes(spec_ser(i)) or op.decode_num(b) != i or op.decode_num(v0) != spec_num(v0)
+        return {"violated": bad, "observed": f"after decode_num({v0.hex()}) and encode_num({j0}): encode_num({i}) = {b.hex()} (minimal "
+                                             f"{bytes(spec_ser(i)).hex()}), decode_num({v0.hex()}) = {op.decode_num(v0)} (CScriptNum {spec_num(v0)})"}
     if "i" in w:
         i = w["i"]
         b = op.encode_num(i)
@@ -892,6 +931,8 @@ SIMPLE_OPS = sorted(set(NULLARY) | set(ARITY) | {108})
 def obligations(tier):
     q = tier == "quick"
     obs = [Ob("O1-numcodec", ob_numcodec, replay="numcodec")]
+    for n0 in range(0, 5):
+        obs.append(Ob("O1-numcodec-history", ob_numcodec_history, {"n0": n0}, replay="numcodec", budget_s=600))
     for opc in SIMPLE_OPS:
         obs.append(Ob("O2-opcode", ob_opcode, {"opc": opc, "maxlen": 4 if (not q or opc not in (165,)) else 3, "extra_depth": 2 if q else 3},
                       replay="opcode", budget_s=900))
